@@ -155,7 +155,9 @@ def _pair(scn):
           f"(|diff|={abs(dev_w):.3g} > {tol:.3g}; the reference solver deviates by {dev_r:.3g} on this input)",
         )
       elif len(got) == 1:
-        _surface(c, gd, s1, s2, tol, tag, f"C:{name}")
+        # witness points are interpolated on polytope faces inscribed in the true surfaces: each may be off by the
+        # sagitta while dist only sees their difference -> twice the distance tolerance
+        _surface(c, gd, s1, s2, 2.0 * tol, tag, f"C:{name}")
     # constructed separated pose: the true distance is exactly d (supporting planes at the two witness points)
     if dd > 0:
       tol_d = P_TOL if cls == "P" else tol
